@@ -711,9 +711,55 @@ pub fn run(ctx: &Ctx) -> i32 {
             }
         }
     }
+    // ---- 6. the fresh processes a user actually starts: the two command-line tools, twice each, the second time onto
+    // an output path that already holds the (longer) export of another project - same bytes as the library every time
+    match crate::c01::build_repo_bins() {
+        Err(e) => ctx.machinery_error(format!("cannot build the repository binaries: {}", e)),
+        Ok(()) => {
+            let dirs = corpus::project_dirs();
+            let mut pr: Vec<(String, String, usize)> = dirs.iter().filter_map(|d| corpus::ctehexml_path(d).map(|f| (d.clone(), f.clone(), std::fs::metadata(&f).map(|m| m.len() as usize).unwrap_or(0)))).collect();
+            pr.sort_by_key(|x| x.2);
+            let (small, big) = (pr[0].clone(), pr[pr.len() / 2].clone());
+            let scratch = format!("{}/.cache/c05-tools", verif_dir());
+            let _ = std::fs::remove_dir_all(&scratch);
+            std::fs::create_dir_all(&scratch).unwrap();
+            let lib = |f: &str| -> Option<String> { catch(std::panic::AssertUnwindSafe(|| hulc::ctehexml::parse_with_catalog_from_path(f).ok().and_then(|d| Model::try_from(&d).ok()).and_then(|m| m.as_json().ok()))).ok().flatten() };
+            // (the export tool's library entry point adds the project's extra data: its own reference)
+            let lib_dir = catch(std::panic::AssertUnwindSafe(|| hulc2model::collect_hulc_data(&small.0, false, false).ok().and_then(|m| m.as_json().ok()))).ok().flatten();
+            if let (Some(js), Some(_jb), Some(jd)) = (lib(&small.1), lib(&big.1), lib_dir) {
+                let mut outs: Vec<(String, String)> = vec![];
+                for r in 0..2 {
+                    let p = crate::c01::run_proc(&crate::c01::bin("hulc2model"), &[small.0.as_str()], 120);
+                    outs.push((format!("hulc2model run {}", r + 1), String::from_utf8_lossy(&p.stdout).trim_end().to_string()));
+                }
+                let fresh = format!("{}/fresh.json", scratch);
+                let reused = format!("{}/reused.json", scratch);
+                let _ = crate::c01::run_proc(&crate::c01::bin("thor"), &[small.1.as_str(), "-o", fresh.as_str()], 120);
+                let _ = crate::c01::run_proc(&crate::c01::bin("thor"), &[big.1.as_str(), "-o", reused.as_str()], 120);
+                let _ = crate::c01::run_proc(&crate::c01::bin("thor"), &[small.1.as_str(), "-o", reused.as_str()], 120);
+                outs.push(("thor -o onto a new path".into(), std::fs::read_to_string(&fresh).unwrap_or_default().trim_end().to_string()));
+                outs.push(("thor -o onto the path of an earlier, larger export".into(), std::fs::read_to_string(&reused).unwrap_or_default().trim_end().to_string()));
+                // the same tool on the same project leaves the same bytes whatever ran or lay there before, and those bytes
+                // load as the library's model
+                let as_model = |t: &str| Model::from_json(t).ok().and_then(|m| m.as_json().ok());
+                for (i, j, want) in [(0usize, 1usize, &jd), (2, 3, &js)] {
+                    ctx.eval(2);
+                    ctx.nontriv(2);
+                    transitions += 2;
+                    let tool = outs[i].0.split(' ').next().unwrap_or("").to_string();
+                    if outs[i].1 != outs[j].1 {
+                        ctx.violation(&format!("fresh-process-differs:tool:{}", tool), &format!("{} ({} bytes) and {} ({} bytes) of {} differ", outs[i].0, outs[i].1.len(), outs[j].0, outs[j].1.len(), small.1.rsplit('/').next().unwrap_or("")), json!({"part": "tools", "project": small.1, "runs": [outs[i].0, outs[j].0]}));
+                    } else if as_model(&outs[i].1).as_deref() != Some(want.as_str()) {
+                        ctx.violation(&format!("fresh-process-differs:tool-vs-library:{}", tool), &format!("{} of {} does not load as the model the library exports", outs[i].0, small.1.rsplit('/').next().unwrap_or("")), json!({"part": "tools", "project": small.1, "run": outs[i].0}));
+                    }
+                }
+            }
+            let _ = std::fs::remove_dir_all(&scratch);
+        }
+    }
     ctx.finish(
         "model_checking",
-        &format!("(1) histories: every sequence of 1 and 2 operations over 9 operations (3 conversions, 5 indicator computations incl. a model without windows and a broken model, 1 collect_hulc_data with extra files) and {} sequences of 3 over a 6-operation core, each run in a fresh worker process: the last operation's observation (model JSON bytes / indicators as JSON value) must equal its observation as the only operation of a fresh process, and repeat identically 3x in-process; 4 conversions x 8 fresh processes byte-identical; (2) id locality: for corpus and generated projects, appending each of 12 unrelated definitions (material, layers, glass, frame, gap, polygon, day/week/year schedule, shade, bridge, floor+space+wall) keeps every pre-existing element id - also when the added definition borrows the name of an existing definition of another kind of the same family (day/week/year schedules; material/layers/glazing/frame/gap) -, and writing the first block of every type twice (straight after itself / again at the end) gives the same bytes on every conversion, on another thread too, and keeps the ids; (3) schedules: controlled scheduler over the three hooked lock sites, real threads, DFS with preemption bounds as listed in schedule_exploration (deadlock / panic / result-vs-sequential-reference per execution, replay determinism checked first), + a free-running 16-thread sampling complement; (4) the 6 shipped (project, reference model) pairs compared through today's serialiser; (5) 3 models x 10 in-place histories (indicators, then an edit through the public fields / purge / check, then indicators on the same object and on its clone) against the edited model loaded afresh from its JSON", ctx.tier.pick(36, 216)),
+        &format!("(1) histories: every sequence of 1 and 2 operations over 9 operations (3 conversions, 5 indicator computations incl. a model without windows and a broken model, 1 collect_hulc_data with extra files) and {} sequences of 3 over a 6-operation core, each run in a fresh worker process: the last operation's observation (model JSON bytes / indicators as JSON value) must equal its observation as the only operation of a fresh process, and repeat identically 3x in-process; 4 conversions x 8 fresh processes byte-identical; (2) id locality: for corpus and generated projects, appending each of 12 unrelated definitions (material, layers, glass, frame, gap, polygon, day/week/year schedule, shade, bridge, floor+space+wall) keeps every pre-existing element id - also when the added definition borrows the name of an existing definition of another kind of the same family (day/week/year schedules; material/layers/glazing/frame/gap) -, and writing the first block of every type twice (straight after itself / again at the end) gives the same bytes on every conversion, on another thread too, and keeps the ids; (3) schedules: controlled scheduler over the three hooked lock sites, real threads, DFS with preemption bounds as listed in schedule_exploration (deadlock / panic / result-vs-sequential-reference per execution, replay determinism checked first), + a free-running 16-thread sampling complement; (4) the 6 shipped (project, reference model) pairs compared through today's serialiser; (5) 3 models x 10 in-place histories (indicators, then an edit through the public fields / purge / check, then indicators on the same object and on its clone) against the edited model loaded afresh from its JSON; (6) the smallest project through hulc2model (twice) and thor -o (onto a new path and onto the path of an earlier, larger export): the library's bytes every time", ctx.tier.pick(36, 216)),
         true,
         json!({"states": states.max(1), "transitions": transitions.max(1), "traces_validated_against_impl": transitions}),
     )
